@@ -185,8 +185,15 @@ def cmdStrategy (name cfg b p r a verdicts clock : String) : String :=
         | "line" => (Load.loadLine d).toOption
         | "char" => (Load.loadChar d).toOption
         | "symbol" => (Load.loadSymbol Load.DEFAULT_CUT_BEFORE Load.DEFAULT_CUT_AFTER d).toOption
+        | "jsstr" => (Js.loadJs d).toOption
+        | "attrs" => (Attrs.loadAttrs d).toOption
         | _ => none
       encIt (Strat.collapse reload cfg o clk t)
+    | ["minimize-collapse-brace", "symbol", b, a] =>
+      -- the copy made by `_post_round_cb` keeps the cut characters of the testcase
+      match decBytes b, decBytes a with
+      | some b, some a => encIt (Strat.collapse (fun d => (Load.loadSymbol b a d).toOption) cfg o clk t)
+      | _, _ => "bad-op"
     | _ => "bad-op"
   | _, _, _ => "bad-op"
 
